@@ -299,10 +299,12 @@ def check(prop, tier, seed, replay=None):
     notes = []
     with Lock():
         g = gen()
-        if g.get("errors"):
-            broken += ["gen_source: " + e for e in g["errors"]]
         rc, out, dt_lake, errs = lake_build(cfg["lean_modules"] + ["bvdrive"])
         lean_ok = rc == 0
+        if g.get("errors"):
+            # an item that could not be harvested is missing from BV.Gen: modules that use it no
+            # longer compile (caught below); items nobody of this property uses are only noted
+            (broken if not lean_ok else notes).extend(["gen_source: " + e for e in g["errors"]])
         if not lean_ok:
             idx = {}
             for e in errs:
